@@ -8,6 +8,8 @@ module N :
 
   val double : coq_N -> coq_N
 
+  val succ : coq_N -> coq_N
+
   val add : coq_N -> coq_N -> coq_N
 
   val sub : coq_N -> coq_N -> coq_N
